@@ -215,6 +215,20 @@ def _contradict(M):
     return False
 
 
+PSEUDO_CAP = 10
+
+
+def _cap(lits):
+    """Dropping must / sufficient literals is sound (weaker knowledge). Pseudo-literals naming sub-terms accumulate along
+    long conjunction chains; keep the newest few so that sets stay small."""
+    ps = [l for l in lits if l[0][0] == '#']
+    if len(ps) <= PSEUDO_CAP:
+        return frozenset(lits)
+    ps.sort(key=lambda l: l[0][1])
+    drop = set(ps[:-PSEUDO_CAP])
+    return frozenset(l for l in lits if l not in drop)
+
+
 def _dep(D, M, S):
     M = frozenset(M)
     if _contradict(M):
@@ -222,7 +236,7 @@ def _dep(D, M, S):
     S = frozenset(S)
     if _contradict(S):
         return C1
-    return _mk('d', D=frozenset(D), M=M, S=S)
+    return _mk('d', D=frozenset(D), M=_cap(M), S=_cap(S))
 
 
 def bnot(a):
